@@ -44,9 +44,9 @@ fn main() {
             "triangles are checked with TriangleConfig::undirected() only; articulation points, bridges, blocks, k-core and triangles are defined on the underlying simple undirected graph without self-loops, bridges additionally respect edge multiplicity",
         ],
         parts: vec![
-            PropPart::new("paths", 24_000, 600_000, model::path_case_strategy, paths::check_case).shrink_iters(40_000).boxed(),
-            PropPart::new("astar", 8_000, 200_000, model::astar_case_strategy, paths::check_case).shrink_iters(40_000).boxed(),
-            PropPart::new("algos", 12_000, 300_000, model::algo_case_strategy, algos::check_case).shrink_iters(40_000).boxed(),
+            PropPart::new("paths", 24_000, 1_000_000, model::path_case_strategy, paths::check_case).shrink_iters(40_000).boxed(),
+            PropPart::new("astar", 8_000, 300_000, model::astar_case_strategy, paths::check_case).shrink_iters(40_000).boxed(),
+            PropPart::new("algos", 12_000, 500_000, model::algo_case_strategy, algos::check_case).shrink_iters(40_000).boxed(),
             Box::new(zero_cycle::part()),
         ],
         children: vec![("zero_cycle", Box::new(zero_cycle::child))],
